@@ -62,9 +62,11 @@ func (cliStream) Generate(rng *rand.Rand, tier string, emit func(Case)) {
 			// a Spec the library's own checks accept and the builtin schema rejects (a negative hook timeout): with
 			// the schema the tool installs as validator (the builtin one unless --schema says otherwise) it is a
 			// file in error, with --schema none it is not
-			for p := range l.Phys {
-				l.Phys[p] = append(l.Phys[p], fileDesc{Name: "schema-only.json", Kind: "schemaonly", Vendor: "v2.com", Class: "c2", Devs: []string{"d2"}, Tag: "SO"})
-				break
+			for _, d := range l.Dirs { // a directory that is configured
+				if strings.HasPrefix(d, "p:") {
+					l.Phys[d[2:]] = append(append([]fileDesc{}, l.Phys[d[2:]]...), fileDesc{Name: "schema-only.json", Kind: "schemaonly", Vendor: "v2.com", Class: "c2", Devs: []string{"d2"}, Tag: "SO"})
+					break
+				}
 			}
 			if i%8 == 1 {
 				schemaChoice = "none"
